@@ -339,6 +339,15 @@ def run_inv(ctx, i):
             o.regularization = None
         for d in desc:
             d["regularized"] = False
+    elif i % 7 == 3:
+        # three or four objects of which exactly two, in any positions, carry no regularization: the evidence terms are restricted
+        # to the regularized parameters whichever ranges the others occupy
+        objs, desc = gen_aa.linear_objects(aa, rng, case, nobj=int(rng.integers(3, 5)), allow_unregularized=False, reg_factory=regf)
+        for j in rng.choice(len(objs), size=2, replace=False):
+            objs[int(j)].regularization = None
+            desc[int(j)]["regularized"] = False
+        mode = 1
+        ctx.classes["two_unregularized_objects_among_%d" % len(objs)] += 1
     else:
         objs, desc = gen_aa.linear_objects(aa, rng, case, allow_unregularized=(mode == 1), reg_factory=regf)
     if units != 1.0:
@@ -400,8 +409,12 @@ def run_inv(ctx, i):
         tol_c = tol_h = 0.0
     try:
         g_reg, g_c, g_h = _f(inv.regularization_term), _f(inv.log_det_curvature_reg_matrix_term), _f(inv.log_det_regularization_matrix_term)
-    except aa.exc.InversionException:
-        ctx.skipped["evidence:InversionException"] += 1
+    except aa.exc.InversionException as e:
+        if len(reg_idx) and max(tol_c, tol_h) <= 1e-6:
+            # both restricted matrices are well conditioned by the harness's own computation: the terms are defined
+            ctx.check(False, "evidence.terms", exception=repr(e)[:300], expected_terms=[t_reg, t_c, t_h], regularized_index_set=reg_idx, **W)
+        else:
+            ctx.skipped["evidence:InversionException"] += 1
         return
     except Exception as e:
         ctx.check(False, "evidence.terms", exception=repr(e)[:300], **W)
